@@ -845,7 +845,7 @@ def run_c12(ctx):
                 cases.append(c)
     n_enum = len(cases)
     # 3. code -> spec: random results outside the enumerated domain (rendered and judged in the same batches)
-    cases += [c for c in random_render_cases(ctx.rng, ctx.pick(1500, 20000)) if json.dumps(c, sort_keys=True) not in seen]
+    cases += [c for c in random_render_cases(ctx.rng, ctx.pick(1000, 20000)) if json.dumps(c, sort_keys=True) not in seen]
     tables, results = check_renderings(ctx, cases, wd, n_enum)
     dispatch = {}
     for case, (obs, _, _) in zip(cases[:n_enum], results):
@@ -880,7 +880,7 @@ def run_c12(ctx):
             raise tlc.MachineryError('TableOps.tla (3 operations): %s' % (res.violation,))
     _tick(ctx, 'table ops model + replay')
     # 5. random operation sequences (longer, wider, 2-d columns)
-    check_random_tables(ctx, random_table_cases(ctx.rng, ctx.pick(400, 6000)), wd)
+    check_random_tables(ctx, random_table_cases(ctx.rng, ctx.pick(300, 6000)), wd)
     _tick(ctx, 'random table ops')
     ctx.cov['exhaustive'] = True
     ctx.cov['explanation'] = ('exhaustive for the TLC configurations listed in tlc_runs (every enumerated input rendered, every '
